@@ -46,6 +46,7 @@ def run(ctx, tier):
                  ("R7", "a size-checked parse against a base uses a base built by the storing parser"),
                  ("R8", "the fast validator defers every authority containing tab / LF / CR, in the host part and in the port part"),
                  ("R9", "the fast validator's Punycode marker is no more specific than the literal that sends the host parsers to the IDNA conversion"),
+                 ("R10", "the fast validator's port check tests the port state's limits (at most five significant digits, at most 65535)"),
                  ("R5", "fast validator's accepted host bytes"),
                  ("R6", "fast validator defers every possibly-IPv4 host (case-insensitively)")):
         ctx.rule(r, t)
@@ -56,6 +57,8 @@ def run(ctx, tier):
         check(ctx, fxs[name])
         from rules import c08_hatch
         c08_hatch.check(ctx, fxs[name], "R9")
+        from rules import c10_limits
+        c10_limits.check(ctx, fxs[name], "R10", table=c10_limits.PORT_LIMITS_VALIDATOR, floor=1, contains=True, what="the port state's")
 
 
 def dominating_conds(f, bid):
